@@ -584,7 +584,15 @@ fn dnode_hints(trace: &[Step], nthreads: usize) -> Vec<Vec<Vec<u64>>> {
         let steps: Vec<&Step> = trace.iter().filter(|s| s.thread == t && s.site != "thread.start").collect();
         let mut cur: Option<Vec<u64>> = None;
         for (i, s) in steps.iter().enumerate() {
-            let is_start = s.site == "store.get" && s.key.ends_with(":in") && i > 0 && steps[i - 1].site == "store.get" && steps[i - 1].key.ends_with(":out");
+            // delete_node starts with get node:N, get node:N:out, get node:N:in (same N); no other
+            // operation issues that triple
+            let is_start = i >= 2
+                && s.site == "store.get"
+                && steps[i - 1].site == "store.get"
+                && steps[i - 2].site == "store.get"
+                && s.key == format!("{}:in", steps[i - 2].key)
+                && steps[i - 1].key == format!("{}:out", steps[i - 2].key)
+                && steps[i - 2].key.starts_with("node:");
             if is_start {
                 if let Some(c) = cur.take() {
                     out[t].push(c);
